@@ -627,6 +627,8 @@ impl Message<PartitionSyncResponse> for PartitionReplicatorActor {
 
                     let tx_id = *commit.transaction_id();
                     let confirmation_count = commit.confirmation_count();
+                    let expected_partition_sequence =
+                        ExpectedVersion::from_next_version(first.partition_sequence);
                     let tx = Transaction::new(
                         first.partition_key,
                         first.partition_id,
@@ -647,7 +649,8 @@ impl Message<PartitionSyncResponse> for PartitionReplicatorActor {
                     )
                     .unwrap()
                     .with_transaction_id(tx_id)
-                    .with_confirmation_count(confirmation_count);
+                    .with_confirmation_count(confirmation_count)
+                    .expected_partition_sequence(expected_partition_sequence);
                     match self.write_transaction(tx).await {
                         Ok(append) => {
                             debug!(
